@@ -584,13 +584,15 @@ way), and everything in the heap but the field contents and the ghost list of re
 structure Frame (st st' : St σ) : Prop where
   nodes : ∀ w ∈ st.g.nodes, w ∈ st'.g.nodes
   heap : st'.h = { st.h with fields := st'.h.fields, epoch := st'.h.epoch }
+  /-- the ghost list of registered labels only grows -/
+  epoch : ∀ o ∈ st.h.epoch, o ∈ st'.h.epoch
 
 theorem Frame.live {st st' : St σ} (h : Frame st st') : st'.h.live = st.h.live := by rw [h.heap]
 theorem Frame.used {st st' : St σ} (h : Frame st st') : st'.h.used = st.h.used := by rw [h.heap]
 
-theorem Frame.refl (st : St σ) : Frame st st := ⟨fun _ h => h, rfl⟩
+theorem Frame.refl (st : St σ) : Frame st st := ⟨fun _ h => h, rfl, fun _ h => h⟩
 theorem Frame.trans {s1 s2 s3 : St σ} (h1 : Frame s1 s2) (h2 : Frame s2 s3) : Frame s1 s3 :=
-  ⟨fun w hw => h2.nodes w (h1.nodes w hw), by rw [h2.heap, h1.heap]⟩
+  ⟨fun w hw => h2.nodes w (h1.nodes w hw), by rw [h2.heap, h1.heap], fun o ho => h2.epoch o (h1.epoch o ho)⟩
 
 theorem foldl_pres {α : Type} (P : St σ → Prop) (f : St σ → α → St σ) (Q : α → Prop)
     (hstep : ∀ st x, P st → Q x → P (f st x)) :
@@ -647,8 +649,9 @@ theorem keeps_ensureSt {q : Quirks} {a : Alloc σ} (ha : a.Valid) {s : St σ} (h
     (ensureSt a s x).2.toR = ⟨x.obj, x.cls⟩ := by
   have e := hI.ensure ha x hx
   unfold ensureSt
-  refine ⟨⟨e.1, ⟨e.2.2.2.2.1, ?_⟩⟩, e.2.1, ?_⟩
+  refine ⟨⟨e.1, ⟨e.2.2.2.2.1, ?_, ?_⟩⟩, e.2.1, ?_⟩
   · rfl
+  · intro o ho; exact (mem_register _ _ _).2 (Or.inl ho)
   · simp only [W.toR, e.2.2.1, e.2.2.2.1]
 
 theorem keeps_inferTakerSupers {q : Quirks} {S : Schema} {a : Alloc σ} (ha : a.Valid) {rec} (hrec : RecOK q rec)
@@ -696,8 +699,8 @@ theorem keeps_deadEnd {q : Quirks} (s : St σ) (f : Fld) (ws wt : W) (hI : Inv q
   unfold deadEnd
   split
   · rename_i hq
-    exact ⟨hI.flags _ _ _ (fun _ => ⟨rfl, hq⟩) hI.noHit, ⟨fun _ h => h, rfl⟩⟩
-  · exact ⟨hI.flags _ _ _ (fun h => ⟨rfl, (hI.errFlag h).2⟩) hI.noHit, ⟨fun _ h => h, rfl⟩⟩
+    exact ⟨hI.flags _ _ _ (fun _ => ⟨rfl, hq⟩) hI.noHit, ⟨fun _ h => h, rfl, fun _ h => h⟩⟩
+  · exact ⟨hI.flags _ _ _ (fun h => ⟨rfl, (hI.errFlag h).2⟩) hI.noHit, ⟨fun _ h => h, rfl, fun _ h => h⟩⟩
 
 theorem keeps_inferOut {q : Quirks} {S : Schema} {rec} (hrec : RecOK q rec) (s : St σ)
     (f : Fld) (ws wt : W) (hI : Inv q s) (hs : ws ∈ s.g.nodes) :
@@ -737,12 +740,12 @@ theorem keeps_record {q : Quirks} {S : Schema} {st : St σ} (hI : Inv q st) (f :
   unfold record
   have h1 := hI.addEdge f ws wt inf hs ht
   split
-  · exact ⟨h1.heap_irrelevant _ (by simp) (by simp) (by simp), ⟨fun _ h => h, rfl⟩⟩
-  · exact ⟨h1, ⟨fun _ h => h, rfl⟩⟩
+  · exact ⟨h1.heap_irrelevant _ (by simp) (by simp) (by simp), ⟨fun _ h => h, rfl, fun _ h => h⟩⟩
+  · exact ⟨h1, ⟨fun _ h => h, rfl, fun _ h => h⟩⟩
 
 theorem keeps_known {q : Quirks} {st : St σ} (hI : Inv q st) (f : Fld) (ws wt : W) (hs : ws ∈ st.g.nodes)
     (ht : wt ∈ st.g.nodes) (hre : relationExists st.g f ws wt = true) : Keeps q st (known st f ws wt) := by
-  refine ⟨hI.flags _ _ _ hI.errFlag ?_, ⟨fun _ h => h, rfl⟩⟩
+  refine ⟨hI.flags _ _ _ hI.errFlag ?_, ⟨fun _ h => h, rfl, fun _ h => h⟩⟩
   intro hr
   rw [hI.noHit hr, hI.exists_exact hr f ws wt hs ht hre]
   rfl
